@@ -114,9 +114,9 @@ func c03ParserHoles(positions bool) {
 	t := c03Templates[ti]
 	pos := verifrt.Choose(len(t) + 1)
 	hole := 1
-	if verifrt.Thorough() && (len(t) <= 12 || ti%8 == verifrt.Seed()%8) {
+	if verifrt.Thorough() && (len(t) <= 12 || (len(t) <= 30 && ti%8 == verifrt.Seed()%8)) {
 		// two adjacent symbolic bytes: in the short templates and in one eighth of
-		// the others, rotating with VERIF_SEED (the path count grows with the
+		// those of at most 30 bytes, rotating with VERIF_SEED (the path count grows with the
 		// square of the number of lexer byte classes)
 		hole = 1 + verifrt.Choose(2)
 	}
